@@ -102,11 +102,23 @@ def reference_cases(root):
     read (model groups, attribute groups, a type and a group sharing one name), and `soap:body parts=` edge cases"""
     out = []
 
-    def add(name, text, ext="xsd"):
+    def add(name, text, ext="xsd", more=None):
         d = os.path.join(root, "refs", name, "in")
         os.makedirs(d)
         open(os.path.join(d, f"main.{ext}"), "w").write(text)
+        for fn, ft in (more or {}).items():
+            open(os.path.join(d, fn), "w").write(ft)
         out.append({"dir": os.path.dirname(d), "in": d, "start": f"main.{ext}", "meta": {"features": "refs " + name}, "ref": None})
+
+    # import cycles among files that declare no target namespace and bind no prefix of their own (nothing is "known" when the
+    # nested read starts), with and without a namespace attribute on the import
+    nons = '<xs:schema xmlns:xs="http://www.w3.org/2001/XMLSchema" elementFormDefault="unqualified">\n  <xs:import namespace="{ns}" schemaLocation="{loc}"/>\n  <xs:complexType name="{t}"><xs:sequence><xs:element name="v" type="xs:string"/><xs:element name="o" type="{o}" minOccurs="0"/></xs:sequence></xs:complexType>\n</xs:schema>\n'
+    add("no-namespace-mutual-import", nons.format(ns="urn:x:b", loc="b.xsd", t="A", o="B"), more={"b.xsd": nons.format(ns="urn:x:a", loc="main.xsd", t="B", o="A")})
+    add("no-namespace-self-import", nons.format(ns="urn:x:self", loc="main.xsd", t="A", o="A"))
+    add("no-namespace-three-cycle", nons.format(ns="urn:x:b", loc="b.xsd", t="A", o="C"),
+        more={"b.xsd": nons.format(ns="urn:x:c", loc="c.xsd", t="B", o="A"), "c.xsd": nons.format(ns="urn:x:a", loc="main.xsd", t="C", o="B")})
+    add("mixed-namespace-cycle", XH + '  <xs:import namespace="urn:x:b" schemaLocation="b.xsd"/>\n<xs:complexType name="T"><xs:sequence><xs:element name="x" type="xs:string"/></xs:sequence></xs:complexType>\n' + XF,
+        more={"b.xsd": nons.format(ns="urn:c", loc="main.xsd", t="B", o="B")})
 
     el = '<xs:element name="x" type="xs:string"/>'
     add("type-and-group-share-a-name", XH + f'<xs:complexType name="T"><xs:sequence><xs:group ref="tns:T"/></xs:sequence></xs:complexType>\n<xs:group name="T"><xs:sequence>{el}</xs:sequence></xs:group>\n' + XF)
